@@ -12,12 +12,13 @@ import driver
 
 PROPERTIES_FILE = "Properties/Properties_C20.v"
 COQ_DEPS = ["Model/Transform.vo", "Proofs/Transform_proofs.vo"]
-GEN_MODULES = []
+GEN_MODULES = ["Gen_transform"]
 LEVEL = "proof"
 COQ_TIMEOUT = 1500
 TRUSTED = [
-    "Model/Transform.v is hand-written (tables included); tie = exact comparison of NULL/non-NULL and output bytes with "
-    "the library on every generated case, plus an exhaustive sweep of all 256 byte values through each decode table",
+    "Model/Transform.v is hand-written; its six tables, the three decode table sizes, BUFFER_MALLOC_MAX and "
+    "_dispatch_transform_utf8_length are generated (Gen_transform); tie = exact comparison of NULL/non-NULL and output "
+    "bytes with the library on every generated case, plus all 256 byte values through each decode table",
     "a dispatch_data object is modelled by the region list dispatch_data_apply presents; dispatch_data_create_subrange/"
     "create_map (data.c, property C13) are modelled by sub_map: a direct pointer when the range lies in one region, "
     "else a fresh buffer of exactly the requested size",
